@@ -259,6 +259,11 @@ Proof.
     destruct (hv_set_round_ok VS off _ _ _ A Es) as [A' B']. split; [exact A'|congruence]. }
   apply T_enter_propose; [exact J3|]. cbn [height set_votes]. destruct F2 as (Hh2 & _). congruence.
 Qed.
+Lemma T_enter_new_round_open h r : T (enter_new_round_open h r).
+Proof.
+  intros off pcs n n' o HJ Hh. unfold enter_new_round_open.
+  destruct (step n <? 8); [apply T_enter_new_round; assumption|apply T_ret; assumption].
+Qed.
 
 Lemma kh_enter_new_round h r : keeps_height (enter_new_round h r).
 Proof.
@@ -456,7 +461,7 @@ Proof.
                                               | None => m end
                                          else m
                             | None => m end in
-                  if (round n2 <=? v_round v) && any23 prevotes then
+                  if (round n2 <=? v_round v) && any23_open n2 prevotes then
                     enter_new_round hh' (v_round v) n2 >>= (fun n3 =>
                       match maj23 (hv_prevotes (votes n3) (v_round v)) with
                       | Some _ => enter_precommit hh' (v_round v) n3
@@ -473,12 +478,12 @@ Proof.
                   let precommits := hv_precommits (votes m) (v_round v) in
                   match maj23 precommits with
                   | Some b => match b_hash b with
-                              | [] => enter_new_round hh' (v_round v + 1) m
+                              | [] => enter_new_round_open hh' (v_round v + 1) m
                               | _ => enter_new_round hh' (v_round v) m >>= enter_precommit hh' (v_round v) >>= enter_commit c hh' (v_round v)
                                      >>= (fun n4 => if false && (match hv_precommits (votes m) (v_round v) with Some vs => has_all vs | None => false end)
                                                     then enter_new_round (height n4) 0 n4 else ret n4)
                               end
-                  | None => if (round m <=? v_round v) && any23 precommits
+                  | None => if (round m <=? v_round v) && any23_open m precommits
                             then enter_new_round hh' (v_round v) m >>= enter_precommit hh' (v_round v) >>= enter_precommit_wait hh' (v_round v)
                             else ret m
                   end
@@ -517,7 +522,7 @@ Proof.
         destruct (is_proposal_complete n2) as [[|]| |]; try discriminate; [apply T_enter_prevote|apply T_ret]; assumption. }
     { destruct (N.eqb (v_type v) 2); [|discriminate]. cbn zeta.
       destruct (maj23 _) as [b|].
-      + destruct (b_hash b); [apply T_enter_new_round; assumption|].
+      + destruct (b_hash b); [apply T_enter_new_round_open; assumption|].
         intro E. apply bind_ok in E as (n4 & oa & ob & Ea1 & Ea2 & ->).
         apply bind_ok in Ea1 as (n3 & oc & od & Eb1 & Eb2 & ->).
         apply bind_ok in Eb1 as (n2 & oe & of & Ec1 & Ec2 & ->).
